@@ -16,7 +16,7 @@ import re
 from typing import Callable, Iterable, Iterator, TypeVar, Union
 
 from .utils import canonicalize_version
-from .version import Version
+from .version import InvalidVersion, Version
 
 UnparsedVersion = Union[Version, str]
 UnparsedVersionVar = TypeVar("UnparsedVersionVar", bound=UnparsedVersion)
@@ -263,8 +263,13 @@ class Specifier(BaseSpecifier):
                 version = version[:-2]
 
             # Parse the version, and if it is a pre-release than this
-            # specifier allows pre-releases.
-            if Version(version).is_prerelease:
+            # specifier allows pre-releases. The text of an arbitrary equality
+            # clause (===) need not be a version: it then names no pre-release.
+            try:
+                parsed_version = Version(version)
+            except InvalidVersion:
+                return False
+            if parsed_version.is_prerelease:
                 return True
 
         return False
